@@ -15,7 +15,7 @@ import os
 import common
 from common import Rng, coq_z, coq_list
 
-PROP_FILES = ["theories/Properties/C15.v"]
+PROP_FILES = ["theories/Properties/C15.v", "theories/Properties/C15Serve.v"]
 USIZE_MAX = (1 << 64) - 1
 
 
@@ -290,8 +290,17 @@ def rpc_predicate(c, o):
 
 
 def coq_rpc_trace(c, o):
+    """The observed HandlerLog as a case of Model.RpcServe.accept_serve. eager = the peer is the raw byte writer,
+    which sends its OPENs ahead of time (flood, withhold); a real client opens when it calls (pair)."""
     evs = coq_list([f"({coq_z(e[1])}, {'true' if e[0] == 1 else 'false'})" for e in o["events"]])
-    return f"({coq_z(c['rs'][0])}, {coq_z(c['rs'][1])}, {c['n']}%nat, {evs})"
+    eager = "false" if c["mode"] == "pair" else "true"
+    return f"({coq_z(c['rs'][0])}, {coq_z(c['rs'][1])}, {c['n']}%nat, {eager}, {evs})"
+
+
+def rpc_expected(o):
+    """[schedule found, events consumed, schedule reproduces the observed start log, starts, handlers running at the end]"""
+    nst = sum(1 for e in o["events"] if e[0] == 1)
+    return [1, len(o["events"]), 1, nst, sum(e[0] for e in o["events"])]
 
 
 def coq_trace(c, o, side):
@@ -594,12 +603,13 @@ def run(rep):
             continue
         nst = sum(1 for e in o["events"] if e[0] == 1)
         rpc_starts += nst
-        if c["mode"] != "withhold":   # there the handler start is later than the OPEN it belongs to
-            rtraces.append((len(rtraces), coq_rpc_trace(c, o), common.to_obsv([1, len(o["events"]), nst]), i))
-    rmm, rsamp = common.run_model_cases("C15rpc", "From EC Require Import Model.Limiter.", "Model.Limiter.accept_trace",
-                                        [(t[0], t[1], t[2]) for t in rtraces], shard_size=(8 if tier == "quick" else 100), sample_ids=[0])
+        # every HandlerLog (withhold probe included) must be the handler-start log of a schedule of the serve model
+        rtraces.append((len(rtraces), coq_rpc_trace(c, o), common.to_obsv(rpc_expected(o)), i))
+    wh_ids = [t[0] for t in rtraces if rcases[t[3]]["mode"] == "withhold"][:1]
+    rmm, rsamp = common.run_model_cases("C15rpc", "From EC Require Import Model.RpcServe.", "Model.RpcServe.accept_serve",
+                                        [(t[0], t[1], t[2]) for t in rtraces], shard_size=(8 if tier == "quick" else 100), sample_ids=[0] + wh_ids)
     if rmm:
-        broken.append(f"trace acceptance vh limiter_rpc vs Model.Limiter.accept_trace: {len(rmm)} observed handler traces are not runs of the StreamQueue model")
+        broken.append(f"trace acceptance vh limiter_rpc vs Model.RpcServe.accept_serve: {len(rmm)} observed HandlerLogs are not handler-start logs of a schedule of the rpc::Server::serve model")
     # the withholding peer: strict bound exceeded by at most INFLIGHT (finding); strict only once registered
     known = common.load_known_findings()
     registered = [e for e in known.get("open", []) if "property=C15" in e]
@@ -617,7 +627,7 @@ def run(rep):
         t = rtraces[k]
         rep.violation("C15 no longer shown to hold: " + broken[-1],
                       {"broken": broken, "first_disagreement": {"case": rcases[t[3]], "impl": routs[t[3]], "model_obs": rmm[k],
-                                                                "meaning": "[accepted, events consumed before rejection, opens]"}},
+                                                                "meaning": "[schedule found, events consumed before rejection, schedule reproduces the start log, starts, running at end]"}},
                       found_input=False)
     if hangs:
         rep.violation(f"machinery failure: {len(hangs)} case(s) did not terminate within the per-case watchdog (20 s real time) even when retried alone "
@@ -641,7 +651,7 @@ def run(rep):
         "trusted_base": common.standard_trusted_base([
             "H-ATOM: tokio Mutex is FIFO-fair, watch::Sender::send_modify / wait_for critical sections and std Mutex sections are atomic (the grain of the step relation)",
             "ctx::ManualClock is the clock (the real clock enters only through ctx.now() / sleep_until_deadline); clock readings stay below the overflow point of time::Instant",
-            "RPC half: the StreamQueue model (permit per OPEN) is tied to mux/reusable_stream.rs by trace acceptance of real Mux runs (hooks VMux/VQueue); rpc::Server::serve is driven through the hook verif::rpc (VRpc<N>, ping wire messages) and its handler traces are accepted by the same model",
+            "RPC half: the StreamQueue model (permit per OPEN) is tied to mux/reusable_stream.rs by trace acceptance of real Mux runs (hooks VMux/VQueue); rpc::Server::serve is driven through the hook verif::rpc (VRpc<N>, ping wire messages); its HandlerLogs are accepted by the serve model Model/RpcServe.v (which contains the StreamQueue model)",
         ] + translator["trusted"]),
         "translator": translator,
         "theorems": po["theorems"], "axioms": po["axioms"],
@@ -660,9 +670,9 @@ def run(rep):
         "input_distribution": dict(kinds, acquires=nacq, grants=ngr, cancelled=ncancel, twin_pairs=len(twins), twin_pairs_with_cancelled_wait=twin_checked),
         "samples": [{"case": strip(cases[i]), "impl": outs[i], "model_obs": samp.get(i)} for i in sample_ids if i < len(cases)]
                    + [{"mux_case": mcases[t[3]], "side": t[4], "impl": mouts[t[3]], "model_accept_trace": tsamp.get(t[0])} for t in traces[:2]]
-                   + [{"rpc_case": rcases[t[3]], "impl": routs[t[3]], "model_accept_trace": rsamp.get(t[0])} for t in rtraces[:1]],
+                   + [{"rpc_case": rcases[t[3]], "impl": routs[t[3]], "model_accept_serve": rsamp.get(t[0])} for t in rtraces if t[0] in ([0] + wh_ids)],
         "correspondence_mismatches": len(mm), "predicate_failures": len(pred_fail), "hung_cases": len(hangs),
-        "partial": "proved for the limiter (all step sequences of the atomic-step model, which the scripts refine) and for the permit-per-OPEN model of a StreamQueue. The RPC half is tied to the code by runs of real Mux pairs and of the real rpc::Service (Server::serve / Client::call through the hook verif::rpc; cooperative multi-task client, raw flooding peer, raw withholding peer) under ManualClock: window and concurrency predicates on stream opens / handler starts + acceptance of the observed traces by the model; no theorem covers Server::serve's own code. FINDING: the limiter bounds OPENs, not handler starts - a peer that opens all INFLIGHT streams and withholds the requests gets up to burst + INFLIGHT handlers started at one instant, i.e. handler starts are only within burst + T/refresh + 1 + INFLIGHT (see coverage.withhold_probe, proposed_fixes/C15-1.diff); the strict bound is enforced for cooperative and flooding peers. Concurrency <= INFLIGHT relies on C14 open_streams_bounded for the number of reusable streams",
+        "partial": "proved for the limiter (all step sequences of the atomic-step model, which the scripts refine) and for the permit-per-OPEN model of a StreamQueue. The RPC half is tied to the code by runs of real Mux pairs and of the real rpc::Service (Server::serve / Client::call through the hook verif::rpc; cooperative multi-task client, raw flooding peer, raw withholding peer) under ManualClock: window and concurrency predicates on stream opens / handler starts + acceptance of the observed traces by the models. rpc::Server::serve is modelled (Model/RpcServe.v: per-slot call state on top of the StreamQueue, adversarial peer = arbitrary schedule) and proved for every schedule: handlers running <= INFLIGHT, OPENs per window <= burst + T/refresh + 1, handler starts per window <= burst + T/refresh + 1 + INFLIGHT (tight), and the strict bound for handler starts is refuted by the withholding-peer schedule (C15_strict_handler_start_bound_refuted) - exactly the open known finding (the limiter bounds OPENs, not handler starts; see coverage.withhold_probe, proposed_fixes/C15-1.diff). Every HandlerLog of the real rpc::Service, withhold probe included, is checked to be the handler-start log of a schedule of that model (accept_serve recomputes the schedule with vexec; C15_accepted_trace_bounds). Still by reading only: that serve's task structure is what the model says (a hand transcription, like every model here), handler panics, metrics. Concurrency <= INFLIGHT relies on C14 open_streams_bounded for the number of reusable streams",
     })
     rep.assumptions += ["H-ATOM (fair tokio Mutex, atomic watch/Mutex critical sections)",
                         "monotone clock; readings below time::Instant overflow"]
@@ -683,9 +693,9 @@ def replay(path):
         print("impl:", json.dumps(o))
         if not (o.get("hang") or "crash" in o or "panic" in o):
             print("predicate:", rpc_predicate(c, o))
-            mm, samp = common.run_model_cases("C15rpc", "From EC Require Import Model.Limiter.", "Model.Limiter.accept_trace",
-                                              [(0, coq_rpc_trace(c, o), common.to_obsv([1, 0, 0]))], sample_ids=[0])
-            print("model accept_trace [accepted, events consumed, opens]:", samp)
+            mm, samp = common.run_model_cases("C15rpc", "From EC Require Import Model.RpcServe.", "Model.RpcServe.accept_serve",
+                                              [(0, coq_rpc_trace(c, o), common.to_obsv(rpc_expected(o)))], sample_ids=[0])
+            print("model accept_serve [schedule found, events consumed, reproduces the start log, starts, running at end]:", samp, "expected", rpc_expected(o))
         return 0
     if "mode" in c:
         o = common.run_impl("limiter_mux", [c], "dev", timeout=IMPL_TIMEOUT)[0]
